@@ -259,6 +259,10 @@ def run(ctx):
         for p in range(n):
             for q in range(p, n): h[p, q] = h[q, p] = rng.randint(-4, 4) / 4
         eri = rand_eri(rng, n); const = float(dy(rng))
+        if i % 4 == 3:
+            # integer-valued one-electron integrals handed over as an integer array (lattice models), non-integer two-electron integrals
+            h = np.array([[int(rng.randint(-2, 2)) for _ in range(n)] for _ in range(n)]); h = h + h.T
+            eri = eri + 0.25 * np.einsum('pq,rs->prsq', np.eye(n), np.eye(n))
         doci = of.DOCIHamiltonian.from_integrals(const, h, eri)
         q = doci.qubit_operator
         one, two = spinorb_from_spatial(h, eri)
